@@ -33,7 +33,7 @@ from vf.props import c02 as C2
 
 PID = "C10"
 LEVEL = "translation_validation"
-ITEM_TIMEOUT = {"quick": 420, "thorough": 3000}
+ITEM_TIMEOUT = {"quick": 900, "thorough": 3600}
 MAXTASKS = 1
 ASSUMPTIONS = [
     "history = decode / symbolic execution / concrete application / stepwise concrete execution / composition / printing, of sequences drawn from the same cpu module (same decode mode)",
